@@ -181,7 +181,7 @@ impl Prop for C11 {
                     f
                 );
                 // known finding: tag containment uses an unscaled text width
-                if has_tag && !canvas_bad && d.groups == base.groups {
+                if has_tag && s < 1.0 && !canvas_bad && d.groups == base.groups {
                     let mut b2 = base.clone();
                     b2.elems = base.elems.iter().map(|e| e.scaled(f)).collect();
                     let (x, y) = diff(&strip_tags(&b2), &strip_tags(&d));
